@@ -758,6 +758,68 @@ pub fn families_c14(subjects: &[Subj]) -> Vec<Pair> {
 		"impl Drop for MyKey { fn drop(&mut self) {} }",
 		"impl happylock::key::sealed::Sealed for MyKey {}",
 	));
+	// K4b: nothing but a key (or a unique borrow of one) may satisfy `Keyable`:
+	// not a user type that merely *points at* ThreadKey through a std trait (a
+	// blanket impl over Deref / AsMut / Borrow / From / FnOnce would let safe code
+	// forge keys: the library never looks inside a key), not a shareable or
+	// possibly-empty container of keys
+	{
+		let forged: Vec<(&str, String, &str)> = vec![
+			(
+				"user type with Deref+DerefMut<Target = ThreadKey>",
+				"pub struct Forged;\nimpl std::ops::Deref for Forged { type Target = ThreadKey; fn deref(&self) -> &ThreadKey { unreachable!() } }\nimpl std::ops::DerefMut for Forged { fn deref_mut(&mut self) -> &mut ThreadKey { unreachable!() } }\n".into(),
+				"Forged",
+			),
+			(
+				"user type with AsRef+AsMut<ThreadKey>",
+				"pub struct Forged;\nimpl AsRef<ThreadKey> for Forged { fn as_ref(&self) -> &ThreadKey { unreachable!() } }\nimpl AsMut<ThreadKey> for Forged { fn as_mut(&mut self) -> &mut ThreadKey { unreachable!() } }\n".into(),
+				"Forged",
+			),
+			(
+				"user type with Borrow+BorrowMut<ThreadKey>",
+				"pub struct Forged;\nimpl std::borrow::Borrow<ThreadKey> for Forged { fn borrow(&self) -> &ThreadKey { unreachable!() } }\nimpl std::borrow::BorrowMut<ThreadKey> for Forged { fn borrow_mut(&mut self) -> &mut ThreadKey { unreachable!() } }\n".into(),
+				"Forged",
+			),
+			(
+				"user type convertible Into<ThreadKey>",
+				"pub struct Forged;\nimpl From<Forged> for ThreadKey { fn from(_f: Forged) -> ThreadKey { unreachable!() } }\n".into(),
+				"Forged",
+			),
+			(
+				"user type that is Default+Clone+Copy+Send+Sync",
+				"#[derive(Default, Clone, Copy, Debug, PartialEq, Eq, Hash)]\npub struct Forged;\n".into(),
+				"Forged",
+			),
+			("fn() -> ThreadKey", String::new(), "fn() -> ThreadKey"),
+			("Box<dyn FnOnce() -> ThreadKey>", String::new(), "Box<dyn FnOnce() -> ThreadKey>"),
+			("&ThreadKey", String::new(), "&'static ThreadKey"),
+			("&&mut ThreadKey", String::new(), "&'static &'static mut ThreadKey"),
+			("&Box<ThreadKey>", String::new(), "&'static Box<ThreadKey>"),
+			("Rc<ThreadKey>", String::new(), "std::rc::Rc<ThreadKey>"),
+			("Arc<ThreadKey>", String::new(), "std::sync::Arc<ThreadKey>"),
+			("Rc<RefCell<ThreadKey>>", String::new(), "std::rc::Rc<std::cell::RefCell<ThreadKey>>"),
+			("cell::Ref<ThreadKey>", String::new(), "std::cell::Ref<'static, ThreadKey>"),
+			("Option<ThreadKey>", String::new(), "Option<ThreadKey>"),
+			("Option<&mut ThreadKey>", String::new(), "Option<&'static mut ThreadKey>"),
+			("Result<ThreadKey, ()>", String::new(), "Result<ThreadKey, ()>"),
+			("Vec<ThreadKey>", String::new(), "Vec<ThreadKey>"),
+			("[ThreadKey; 0]", String::new(), "[ThreadKey; 0]"),
+			("PhantomData<ThreadKey>", String::new(), "std::marker::PhantomData<ThreadKey>"),
+			("()", String::new(), "()"),
+			("*mut ThreadKey", String::new(), "*mut ThreadKey"),
+		];
+		for (name, decl, ty) in &forged {
+			let prog = |t: &str| format!("{PRELUDE}\n{decl}fn need<K: Keyable>() {{}}\npub fn probe() {{\n//<<\n    need::<{t}>();\n//>>\n}}\n");
+			v.push(Pair {
+				prop: "C14".into(),
+				family: "K4-keyless-or-shareable-type-is-keyable".into(),
+				name: name.to_string(),
+				twin: prog("&'static mut ThreadKey"),
+				offending: prog(ty),
+				std_offending: None,
+			});
+		}
+	}
 	// K9b: no type that carries a key (or a key and a hold) may be Send, whatever it is wrapped in
 	{
 		let header = format!(
